@@ -311,8 +311,11 @@ func runC15(e *env) error {
 	}
 	r := e.r.Fork(15)
 	var cases []*layCase
+	e.rep.Rule += w10C15Rule
+	rNames := rng.New(e.seed ^ 0xC15F11E) // its own stream: the cases of genLayCase stay what they were
 	for i := 0; i < nCases; i++ {
 		cases = append(cases, genLayCase(r, i, base))
+		w10C15Names(rNames, cases[i])
 	}
 	var reqs []*sx.Node
 	for _, lc := range cases {
